@@ -3105,13 +3105,15 @@ func backoffDelay(faults int64, initialDelay, maxDelay time.Duration) time.Durat
 	}
 
 	// a single shift can still wrap around for larger initial delays
-	// (e.g. 100ms << 40); a wrapped value is negative or huge, both clamp
-	delay := initialDelay << uint(shift)
-	if delay <= 0 || delay > maxDelay {
+	// (e.g. 100ms << 40), and the wrapped value may well be a small positive
+	// number ((2^40+1)ns << 24 is 16ms), so compare before shifting:
+	// initialDelay << shift exceeds maxDelay exactly when initialDelay exceeds
+	// maxDelay >> shift
+	if initialDelay > maxDelay>>uint(shift) {
 		return maxDelay
 	}
 
-	return delay
+	return initialDelay << uint(shift)
 }
 
 // childAddress returns the address of the given child actor provided the name
